@@ -27,7 +27,7 @@ RULE = ('one case = (algorithm, hyper-parameters from a grid, population, 5-roun
 TRUSTED = ['float64 NumPy reference of full-batch linear-regression training (exercised against the implementation with tolerance 1e-4)',
            'exp enters the model only as the supplied positive factors e_i = exp(lr * mean domain loss) computed in float64']
 ASSUMPTIONS = ['finite inputs; exp(lr*loss) does not overflow', 'window size W >= 1', 'initial APFL coefficient in [0,1]',
-               'clip norm >= 0 (a clip norm of exactly 0 with an exactly-zero delta is the reported corner mime_lite.zero-clip-nan)',
+               'clip norm >= 0',
                'C17_ignore_grads: the base optimizer returns a tree with the keys of its input (section hypothesis)']
 PARTIAL = []
 CASE_TIMEOUT = 240
@@ -468,7 +468,7 @@ def _or_mime(case, obs):
         out.append(('mime_lite.client-not-clipped', f'round {r}: reported clipped norm {c["diag_clipped_norm"]} > {clip}'))
     tot = sum(c['n'] for c in ro['clients'])
     if tot > 0:
-      mean = sum(c['n'] * np.array(c['delta']) * (min(1.0, clip / c['norm']) if c['norm'] > 0 else 1.0) for c in ro['clients']) / tot
+      mean = sum(c['n'] * np.array(c['delta']) * (clip / c['norm'] if c['norm'] > clip else 1.0) for c in ro['clients']) / tot
       if not _close(step, hp['slr'] * mean):
         out.append(('mime_lite.aggregate-not-clipped-mean', f'round {r}: server step {_f(step)}, mean of clipped client deltas {_f(hp["slr"] * mean)}'))
   return out
